@@ -181,7 +181,7 @@ Print Assumptions C07_exodus_coord.
    corner positions in the same cyclic order (node numbering is rebuilt by np.unique) *)
 Theorem C07_scrip_roundtrip : forall m t lon lat,
   Forall (fun r => length r = m /\ Forall (fun i => 0 <= i < Z.of_nat (length lon)) r) t ->
-  exists c d, c07_encode_scrip t lon lat = Some c /\ c07_read_scrip true c = Some d /\
+  exists c d, c07_encode_scrip false t lon lat = Some c /\ c07_read_scrip false true c = Some d /\
     c07_positions (dc_lon d) (dc_lat d) (dc_fnc d) = c07_positions lon lat t /\
     length (dc_fnc d) = length t.
 Proof. exact c07_scrip_roundtrip. Qed.
@@ -189,6 +189,6 @@ Print Assumptions C07_scrip_roundtrip.
 
 (* grids mixing face sizes: the encoder indexes with the fill value and raises *)
 Theorem C07_scrip_mixed_refuted :
-  exists t lon lat, std_tableb 4 t = true /\ c07_encode_scrip t lon lat = None.
+  exists t lon lat, std_tableb 4 t = true /\ c07_encode_scrip false t lon lat = None.
 Proof. exact c07_scrip_mixed_refuted. Qed.
 Print Assumptions C07_scrip_mixed_refuted.
